@@ -363,6 +363,16 @@ impl Clone for Term {
 #[derive(Debug, Clone, Copy, PartialEq, Eq)]
 pub struct W(pub u8);
 
+/// Declared bound for generic user impls in C09: something that behaves like a term.
+pub trait Tm {
+    fn s(&self) -> String;
+    fn mk(s: String) -> Self;
+}
+impl Tm for Term {
+    fn s(&self) -> String { self.0.clone() }
+    fn mk(s: String) -> Self { Term(s) }
+}
+
 macro_rules! term_bin {
     ($Tr:ident, $f:ident, $TrA:ident, $fa:ident, $sym:expr, $wf:expr) => {
         impl std::ops::$Tr<Term> for Term {
